@@ -89,6 +89,7 @@ class TPCI(ABC):
                 return TConnect()
             if control_flags == 1:
                 return TDisconnect()
+            raise ConversionError(f"Unknown TPCI {raw_tpci:#10b}.")
         # numbered control
         if control_flags == 0b10:
             return TAck(sequence_number=sequence_number)
